@@ -342,3 +342,41 @@ Theorem C20_new_finite_factor_rebinds :
   exists s n w f, dmem Nat.eqb (st_facs s) n = true /\ snd (new_finite_factor s n w) = RFac f.
 Proof. exact new_finite_factor_rebinds. Qed.
 Print Assumptions C20_new_finite_factor_rebinds.
+
+(** * The oracles are not stricter than the property: the model's own answers pass them *)
+Require Import Fggs.Proofs.Domain_oracle.
+
+Theorem C20_bij_oracle_complete : forall items probes, NoDup items -> (forall v, In v items -> In v probes) ->
+  let d := mk_finite Reiterable items in
+  bij_oracle items (length items)
+             (combine probes (combine (map (dom_contains d) probes) (map (dom_numberize d) probes)))
+             (map (fun i => dom_denumberize d (vnat i)) (seq 0 (length items))) = true.
+Proof. exact bij_oracle_model. Qed.
+Print Assumptions C20_bij_oracle_complete.
+
+Theorem C20_range_oracle_complete : forall n probes, forallb integral_probe probes = true ->
+  let d := DRange (Some n) in
+  range_oracle n (dom_size d)
+               (combine probes (combine (combine (map (dom_contains d) probes) (map (dom_numberize d) probes))
+                                        (map (dom_denumberize d) probes))) = true.
+Proof. exact range_oracle_model. Qed.
+Print Assumptions C20_range_oracle_complete.
+
+Theorem C20_ctor_oracle_complete : forall doms w,
+  ctor_oracle doms w (match mk_finite_factor doms w with Ok _ => true | Err _ => false end) = true.
+Proof. exact ctor_oracle_model. Qed.
+Print Assumptions C20_ctor_oracle_complete.
+
+Theorem C20_apply_oracle_complete : forall doms sh d vs,
+  forallb good_dom doms = true -> sh = sizes_of doms -> length d = numel sh ->
+  apply_oracle doms (sh, d) vs (fac_apply (FFinite doms sh d) vs) = true.
+Proof. exact apply_oracle_model. Qed.
+Print Assumptions C20_apply_oracle_complete.
+
+(** the verdict of the binding oracle on the model's own outcome is never 1: it is 3 exactly
+    on the F14 class (all conditions hold and the label is already bound), else 0 *)
+Theorem C20_step_oracle_add_factor : forall s e f,
+  step_oracle s (OAddFactor e f) (snd (add_factor s e f)) =
+  if bind_spec_guarded s e f && dmem Nat.eqb (st_facs s) (el_name e) then 3 else 0.
+Proof. exact step_oracle_add_factor. Qed.
+Print Assumptions C20_step_oracle_add_factor.
